@@ -622,6 +622,7 @@ def run(P, R, tier):
     savefree_rule(P, R)
     halfstep_rule(P, R)
     cvodeorigin_rule(P, R)
+    exitcheck_rule(P, R)
     timeorigin_rule(P, R)
 
 
@@ -1293,3 +1294,96 @@ def cvodeorigin_rule(P, R):
                                     file=g["file"], line=x[1], function=g["q"])
     if n < 4:
         R.anchor_missing(RULE, "only %d assignments of the CVODE time origin / clock found" % n)
+
+
+def exitcheck_rule(P, R):
+    """"the amounts after a time step do not depend on how the step is divided" presupposes that a step is never accepted on the strength
+    of the rates at its start alone.  rk_kinetics evaluates k1 at the start of every sub-step (the first calc_kinetic_reaction of the loop
+    body) and has three early acceptances (`goto EQUAL_RATE_OUT`, for -runge_kutta 1, 2, 3 with equal stage rates).  On every path of
+    the control-flow graph from the k1 evaluation to such a goto there must be a further calc_kinetic_reaction - a rate evaluated later
+    in the step that the exit compared with k1.  (With all rates zero at the start, the rk 1 exit was taken without one: a rate that
+    depends on time was lost for the whole step.)"""
+    RULE = "C12.exitcheck"
+    R.rule(RULE, "rk_kinetics: every early acceptance of a step (goto EQUAL_RATE_OUT) is preceded on all paths by a rate evaluation later than k1", minimum=3)
+    f = P.one("Phreeqc::rk_kinetics")
+    cfg = T.CFG(f)
+    evals = [i for i, nd in enumerate(cfg.nodes) if T.is_node(nd["n"]) and any(T.callee_name(c) == "calc_kinetic_reaction" for c in T.calls(nd["n"]))]
+    exits = [i for i, nd in enumerate(cfg.nodes) if T.is_node(nd["n"]) and nd["n"][0] == "Goto" and nd["n"][2] == "EQUAL_RATE_OUT"]
+    if len(evals) < 6 or len(exits) < 3:
+        R.anchor_missing(RULE, "rk_kinetics: %d rate evaluations, %d early exits found" % (len(evals), len(exits)))
+        return
+    k1 = min(evals, key=lambda i: cfg.nodes[i]["line"])
+    # forward search from k1 that stops at any other rate evaluation (and at k1 itself, the next sub-step).  The search carries what the
+    # branch conditions have established about local flags compared with literals (`zero_rate == FALSE` not taken, so `zero_rate == TRUE`
+    # must be taken): complementary tests of one flag are the idiom of this function, and a path that skips both is infeasible.
+    def flag_test(n):
+        """(var, value, equal?) for `v == lit`, `v != lit`, `v`, `!v` on a local scalar"""
+        n = T.strip_casts(n)
+        if not T.is_node(n):
+            return None
+        if n[0] == "Paren":
+            return flag_test(n[2])
+        if n[0] == "Bin" and n[2] in ("==", "!="):
+            a, b = T.strip_casts(n[3]), T.strip_casts(n[4])
+            if T.is_node(a) and a[0] == "Ref" and a[2] == "local" and T.lit_value(b) is not None:
+                return a[3], T.lit_value(b), n[2] == "=="
+        if n[0] == "Ref" and n[2] == "local":
+            return n[3], 0, False
+        if n[0] == "Un" and n[2] == "!":
+            t = flag_test(n[3])
+            return (t[0], t[1], not t[2]) if t else None
+        return None
+
+    def apply_writes(n, state):
+        if not T.is_node(n):
+            return state
+        for t, how, line, w in T.writes(n):
+            t = T.strip_casts(t)
+            if T.is_node(t) and t[0] == "Ref" and t[2] == "local" and t[3] in state:
+                v = T.lit_value(T.strip_casts(w[4])) if how == "=" else None
+                state = dict(state)
+                if v is None:
+                    state.pop(t[3])
+                else:
+                    state[t[3]] = v
+            elif T.is_node(t) and t[0] == "Ref" and t[2] == "local" and how == "=" and T.lit_value(T.strip_casts(w[4])) is not None:
+                state = dict(state)
+                state[t[3]] = T.lit_value(T.strip_casts(w[4]))
+        return state
+    seen, visited = set(), set()
+    st = [(y, ()) for y in cfg.nodes[k1]["succ"]]
+    while st:
+        x, items = st.pop()
+        if x in evals or (x, items) in visited:
+            continue
+        visited.add((x, items))
+        seen.add(x)
+        nd = cfg.nodes[x]
+        state = dict(items)
+        ft = flag_test(nd["n"]) if len(nd["succ"]) == 2 else None
+        if ft is not None:
+            var, val, eq = ft
+            known = state.get(var)
+            for k, y in enumerate(nd["succ"]):
+                taken_true = (k == 0)
+                holds_eq = taken_true == eq            # on this edge `var == val` holds (True) or fails (False)
+                if known is not None and (known == val) != holds_eq:
+                    continue                            # infeasible edge
+                s2 = dict(state)
+                if holds_eq:
+                    s2[var] = val
+                elif val in (0, 1) and known is None:
+                    s2[var] = 1 - val                   # TRUE/FALSE flags
+                st.append((y, tuple(sorted(s2.items()))))
+            continue
+        state = apply_writes(nd["n"], state)
+        for y in nd["succ"]:
+            st.append((y, tuple(sorted(state.items()))))
+    for g in sorted(exits, key=lambda i: cfg.nodes[i]["line"]):
+        inst = "exit@%d" % (cfg.nodes[g]["line"] - f["line"])
+        if g in seen:
+            R.violation(RULE, inst, "the early exit at line %d can be reached from the k1 evaluation (line %d) without any later rate evaluation: the step is accepted on the rates "
+                        "at its start alone, a rate that depends on time (or on what the step changes) is never seen" % (cfg.nodes[g]["line"], cfg.nodes[k1]["line"]),
+                        file=f["file"], line=cfg.nodes[g]["line"], function=f["q"])
+        else:
+            R.ok(RULE, inst, "a later calc_kinetic_reaction lies on every path from k1 (line %d)" % cfg.nodes[k1]["line"])
